@@ -1,0 +1,118 @@
+//go:build verif
+
+// Package verifhook re-exports internals of gokrazy/rsync for the
+// verification harness under /verif (a separate module, which therefore
+// cannot import internal/... itself). It is compiled only with -tags verif.
+package verifhook
+
+import (
+	"bytes"
+	"io"
+	"io/fs"
+	"os"
+	"time"
+
+	"github.com/gokrazy/rsync"
+	"github.com/gokrazy/rsync/internal/log"
+	"github.com/gokrazy/rsync/internal/progress"
+	"github.com/gokrazy/rsync/internal/receiver"
+	"github.com/gokrazy/rsync/internal/rsyncchecksum"
+	"github.com/gokrazy/rsync/internal/rsynccommon"
+	"github.com/gokrazy/rsync/internal/rsyncopts"
+	"github.com/gokrazy/rsync/internal/rsyncos"
+	"github.com/gokrazy/rsync/internal/rsyncwire"
+	"github.com/gokrazy/rsync/internal/sender"
+)
+
+func Checksum1(buf []byte) uint32              { return rsyncchecksum.Checksum1(buf) }
+func Checksum2(seed int32, buf []byte) []byte  { return rsyncchecksum.Checksum2(seed, buf) }
+func Tag(sum uint32) uint16                    { return rsyncchecksum.Tag(sum) }
+func SumSizesSqroot(n int64) rsync.SumHead     { return rsynccommon.SumSizesSqroot(n) }
+
+// ---- in-memory file source for the sender ----
+
+type memInfo struct {
+	name string
+	size int64
+}
+
+func (i memInfo) Name() string       { return i.name }
+func (i memInfo) Size() int64        { return i.size }
+func (i memInfo) Mode() fs.FileMode  { return 0o644 }
+func (i memInfo) ModTime() time.Time { return time.Unix(0, 0) }
+func (i memInfo) IsDir() bool        { return false }
+func (i memInfo) Sys() any           { return nil }
+
+type memFile struct {
+	*bytes.Reader
+	info memInfo
+}
+
+func (f *memFile) Stat() (fs.FileInfo, error) { return f.info, nil }
+func (f *memFile) Close() error               { return nil }
+
+type memSource struct{ data []byte }
+
+func (s *memSource) FS() fs.FS { return nil }
+func (s *memSource) Open(name string) (sender.File, error) {
+	return &memFile{Reader: bytes.NewReader(s.data), info: memInfo{name: name, size: int64(len(s.data))}}, nil
+}
+func (s *memSource) Readlink(name string) (string, error) { return "", fs.ErrInvalid }
+func (s *memSource) Close() error                         { return nil }
+
+// SenderRun feeds req (what a receiving peer sends after the file list: file
+// index, checksum header, block checksums, ..., -1, -1) to the real
+// sender.SendFiles for a file list whose only entry has the given content,
+// and returns everything the sender wrote.
+func SenderRun(seed int32, req []byte, target []byte) (out []byte, err error) {
+	var buf bytes.Buffer
+	osenv := &rsyncos.Env{Stdout: io.Discard, Stderr: io.Discard}
+	st := &sender.Transfer{
+		Logger:   log.New(io.Discard),
+		Opts:     rsyncopts.NewOptionsWithGokrazyDefaults(osenv),
+		Env:      osenv,
+		Progress: progress.NewPrinter(io.Discard, time.Now),
+		Conn:     &rsyncwire.Conn{Reader: bytes.NewReader(req), Writer: &buf},
+		Seed:     seed,
+	}
+	err = sender.VerifSendOne(st, &memSource{data: target}, "f", int64(len(target)))
+	return buf.Bytes(), err
+}
+
+// ReceiverOpts selects the receiver behaviour relevant to recvFile1.
+type ReceiverOpts struct {
+	PreservePerms bool
+	PreserveTimes bool
+	DryRun        bool
+}
+
+// ReceiverRecvFile runs the real recvFile1 (open basis <dir>/<name> if any,
+// receiveData from wire, verify, rename, setPerms) and reports its error and
+// how much of wire was consumed.
+func ReceiverRecvFile(seed int32, dir, name string, mode int32, mtime int64, wire []byte, o ReceiverOpts) (consumed int, err error) {
+	root, err := os.OpenRoot(dir)
+	if err != nil {
+		return 0, err
+	}
+	defer root.Close()
+	rd := bytes.NewReader(wire)
+	osenv := &rsyncos.Env{Stdout: io.Discard, Stderr: io.Discard}
+	no := func(rsyncopts.InfoLevel, uint16) bool { return false }
+	nod := func(rsyncopts.DebugLevel, uint16) bool { return false }
+	rt := &receiver.Transfer{
+		Logger: log.New(io.Discard),
+		Opts: &receiver.TransferOpts{
+			PreservePerms: o.PreservePerms, PreserveTimes: o.PreserveTimes, DryRun: o.DryRun,
+			InfoGTE: no, DebugGTE: nod,
+		},
+		Dest:     dir,
+		DestRoot: root,
+		Env:      osenv,
+		Progress: progress.NewPrinter(io.Discard, time.Now),
+		Conn:     &rsyncwire.Conn{Reader: rd, Writer: io.Discard},
+		Seed:     seed,
+	}
+	f := &receiver.File{Name: name, Length: 0, ModTime: time.Unix(mtime, 0), Mode: mode}
+	err = rt.VerifRecvFile1(f)
+	return len(wire) - rd.Len(), err
+}
